@@ -5,6 +5,7 @@ import ElfioVerif.Lemmas.Save
 import ElfioVerif.Props.C03
 namespace ElfioVerif.C05
 open Gen C03
+open Sv
 
 /-! ### 1. what `save` changes of the object -/
 
